@@ -795,3 +795,38 @@ class Abstractor:
 def abstract_ufs(constraints):
     ab = Abstractor()
     return [ab(c) for c in constraints]
+
+
+def generalize_shared(a, b, min_args=1):
+    """Replace every maximal compound subterm that occurs (hash-consed: same id)
+    in both *a* and *b* by one fresh real constant.  The result is a
+    generalisation: validity of a statement about the rewritten terms implies
+    validity about the originals."""
+    ids_a = set()
+    stack = [a]
+    while stack:
+        e = stack.pop()
+        if e.get_id() in ids_a:
+            continue
+        ids_a.add(e.get_id())
+        stack.extend(e.children())
+    table = {}
+
+    def walk(e):
+        k = e.get_id()
+        if k in table:
+            return
+        if z3.is_app(e) and e.num_args() >= min_args and k in ids_a and z3.is_real(e) \
+                and not z3.is_rational_value(e):
+            table[k] = (e, z3.Real("shared!%d" % len(table)))
+            return
+        for c in e.children():
+            walk(c)
+    if b.get_id() in ids_a:
+        return a, b
+    for c in b.children():
+        walk(c)
+    subs = list(table.values())
+    if not subs:
+        return a, b
+    return z3.substitute(a, *subs), z3.substitute(b, *subs)
